@@ -596,10 +596,42 @@ func (x *exec) mergeVals(conds []string, vs []*Val, stem string) *Val {
 	if v0.Clo != nil || v0.Tup != nil {
 		for _, v := range vs[1:] {
 			if v.Clo == nil || v0.Clo == nil || v.Clo.Instr != v0.Clo.Instr {
-				return &Val{Typ: v0.Typ} // unknown function value
+				if v0.Tup != nil {
+					return &Val{Typ: v0.Typ}
+				}
+				// different function values (or a function literal and nil): which one is not tracked,
+				// but whether the value is nil is — a function literal is never nil
+				var ts []string
+				for _, w := range vs {
+					if w.Clo != nil {
+						ts = append(ts, x.cloTerm(w))
+					} else if w.T != "" {
+						ts = append(ts, w.T)
+					} else {
+						return &Val{Typ: v0.Typ}
+					}
+				}
+				return &Val{T: x.mergeTerms(conds, ts, stem, "Int"), Typ: v0.Typ}
 			}
 		}
 		return v0
+	}
+	if isFuncType(v0.Typ) {
+		for _, w := range vs[1:] {
+			if w.Clo != nil {
+				var ts []string
+				for _, u := range vs {
+					if u.Clo != nil {
+						ts = append(ts, x.cloTerm(u))
+					} else if u.T != "" {
+						ts = append(ts, u.T)
+					} else {
+						return &Val{Typ: v0.Typ}
+					}
+				}
+				return &Val{T: x.mergeTerms(conds, ts, stem, "Int"), Typ: v0.Typ}
+			}
+		}
 	}
 	var ts []string
 	for _, v := range vs {
@@ -648,4 +680,13 @@ func (x *exec) entryAlive(s *State, name, ref string, v *Val) {
 		owner = strings.TrimSuffix(owner[i+1:], ")")
 	}
 	x.assume(s, Imp(Sel("alive@0", owner), Or(Eq(r, "0"), Sel("alive@0", r))))
+}
+
+// cloTerm gives a function literal (or named function) value a term: a non-nil constant of its own.
+func (x *exec) cloTerm(v *Val) string {
+	if v.T == "" {
+		v.T = x.c.FreshConst("fn", "Int")
+		x.c.Axiom([]string{v.T}, Not(Eq(v.T, "0")))
+	}
+	return v.T
 }
